@@ -28,4 +28,24 @@ theorem C12_struct_over_packet (P : Prims) (c : SendCfg) (useComp : Bool) (t : U
   simp only [List.append_nil] at h
   simp [readStruct, h]
 
+/-- **C12 (alive messages, packet path).** The port of an alive message is recovered unchanged by every
+receiver that speaks protocol version 2 or later - the only rewriting is the documented one: a message
+without a port, or any message at a receiver below version 2, gets the receiver's configured port. -/
+theorem C12_alive_port_recovered (bindPort proto port : Nat) (hp : 2 ≤ proto) (h0 : port ≠ 0) :
+    alivePort bindPort proto port = port := by
+  unfold alivePort
+  have : ¬ proto < 2 := by omega
+  simp [this, h0]
+
+theorem C12_alive_port_masked (bindPort proto port : Nat) (h : proto < 2 ∨ port = 0) :
+    alivePort bindPort proto port = bindPort := by
+  unfold alivePort
+  rcases h with h | h <;> simp [h]
+
+/-- the packet path and the stream path (`readRemoteState`, `normState`) apply the same rule -/
+theorem C12_alive_port_same_rule_as_stream (bindPort proto p : Nat) (a i m n st v : Val) :
+    normState bindPort (decide (proto < 2)) [a, i, m, n, .uint p, st, v] =
+      [a, i, m, n, .uint (alivePort bindPort proto p), st, v] := by
+  simp [normState, alivePort]
+
 end Swim.Codec
